@@ -111,11 +111,11 @@ static void run() {
     for (unsigned idx = 0; idx < bf_accessor_count; idx++) {
         if (bf_accessors[idx].width != 32) continue;
         bool ok = true;
-        for (uint64_t v = lo; v < hi && ok; v++) ok = check_acc(idx, 1, bf_accessors[idx].kind == 's' ? sext(v, 32) : v);
+        for (uint64_t v = lo; v < hi && ok; v++) { ok = check_acc(idx, 1, bf_accessors[idx].kind == 's' ? sext(v, 32) : v); if ((v & 0xfffff) == 0) vp::alive(); }
         vp::count(hi - lo); vp::cls(std::string("all-32-bit:") + bf_accessors[idx].name, hi - lo);
     }
     for (uint64_t v = lo; v < hi; v += 65521) if (nontrivial_value(v, 32)) vp::nontrivial(v);
-    for (uint64_t v = lo; v < hi; v++) if (!check_swap(2, v)) break;
+    for (uint64_t v = lo; v < hi; v++) { if (!check_swap(2, v)) break; if ((v & 0xfffff) == 0) vp::alive(); }
     vp::count(hi - lo);
     return;
 #endif
